@@ -42,6 +42,102 @@ def ins : List Seg → Nat → Bytes → Nat → List Seg × Nat
         let (r, lg') := ins rest (max start seg.stop) (data.drop (seg.stop - start)) lg1
         (pre ++ seg :: r, lg')
 
+/-! ### Branch-by-branch transliteration of the Rust `loop` in `RecvBuf::recv`
+
+`recvLoop fuel segs start data lg` is the `loop { … }` of `recv` with `self.segments = segs`,
+`self.largest_offset = lg`; one unit of fuel per loop iteration.  `ins` above is the specification-level
+single pass; `recvLoop_eq_ins` (Props/C08.lean) proves that the loop computes the same result whenever the
+segment list is sorted/disjoint, and that `2·|segs| + 2` iterations always suffice.
+
+`VecDeque::binary_search_by(|seg| seg.offset.cmp(&start))` is modelled by `search`: index of the first
+segment whose offset is ≥ `start`, `ok` if that offset equals `start`, otherwise `err` (the insertion
+point).  On a list sorted by strictly increasing offset that is what the binary search returns. -/
+
+inductive LoopRes where
+  | done (segs : List Seg) (lg : Nat)
+  /-- a Rust panic site (slice bound / integer underflow) was reached -/
+  | panic (site : String)
+  /-- the iteration budget ran out -/
+  | fuel
+deriving Repr, DecidableEq
+
+/-- number of leading segments with `offset < start` (on a sorted list: the partition point) -/
+def lowerBound : List Seg → Nat → Nat
+  | [], _ => 0
+  | s :: rest, start => if s.off < start then lowerBound rest start + 1 else 0
+
+inductive Search where
+  | ok (i : Nat)
+  | err (i : Nat)
+deriving Repr, DecidableEq
+
+def search (segs : List Seg) (start : Nat) : Search :=
+  let i := lowerBound segs start
+  match segs[i]? with
+  | some seg => if seg.off = start then .ok i else .err i
+  | none => .err i
+
+/-- `VecDeque::insert(i, seg)` / `push_front` for `i = 0` -/
+def insertAt (segs : List Seg) (i : Nat) (seg : Seg) : List Seg := segs.take i ++ seg :: segs.drop i
+
+def recvLoop : Nat → List Seg → Nat → Bytes → Nat → LoopRes
+  | 0, _, _, _, _ => .fuel
+  | fuel + 1, segs, start, data, lg =>
+    -- `if data.is_empty() { break; }`
+    if data.isEmpty then .done segs lg else
+    match search segs start with
+    | .ok i =>
+      -- `Ok(exist_seg_index)`: skip what the existing segment at the same offset covers
+      match segs[i]? with
+      | none => .panic "segments[exist_seg_index]"
+      | some ex =>
+        let c := min data.length ex.data.length
+        recvLoop fuel segs (start + c) (data.drop c) lg
+    | .err 0 =>
+      -- `Err(0)`: in front of every segment
+      match segs.head? with
+      | some next =>
+        if start + data.length > next.off then
+          -- `data.split_to((next_seg.offset - start) as usize)`
+          if next.off < start then .panic "next_seg.offset - start" else
+          if next.off - start > data.length then .panic "split_to" else
+          let unc := data.take (next.off - start)
+          recvLoop fuel (insertAt segs 0 ⟨start, unc⟩) (start + unc.length) (data.drop (next.off - start))
+            (max lg (start + unc.length))
+        else
+          -- `core::mem::take(&mut data)`
+          recvLoop fuel (insertAt segs 0 ⟨start, data⟩) (start + data.length) [] (max lg (start + data.length))
+      | none =>
+        recvLoop fuel (insertAt segs 0 ⟨start, data⟩) (start + data.length) [] (max lg (start + data.length))
+    | .err (i + 1) =>
+      -- `Err(seg_index)`, `seg_index = i + 1 > 0`: first trim against the previous segment `segs[i]`
+      let trimmed : Option (Nat × Bytes) :=          -- `none` = the `break` arm
+        match segs[i]? with
+        | some prev =>
+          if start + data.length ≤ prev.stop then none
+          else if start < prev.stop then
+            -- `start += prev.end() - start; data.split_off(prev.end() - start)` (keeps the tail)
+            some (prev.stop, data.drop (prev.stop - start))
+          else some (start, data)
+        | none => some (start, data)
+      match trimmed with
+      | none => .done segs lg
+      | some (start, data) =>
+        match segs[i + 1]? with
+        | some next =>
+          -- `Some(next_seg) if start == next_seg.offset => continue`
+          if start = next.off then recvLoop fuel segs start data lg
+          else if start + data.length > next.off then
+            if next.off < start then .panic "next_seg.offset - start" else
+            if next.off - start > data.length then .panic "split_to" else
+            let unc := data.take (next.off - start)
+            recvLoop fuel (insertAt segs (i + 1) ⟨start, unc⟩) (start + unc.length) (data.drop (next.off - start))
+              (max lg (start + unc.length))
+          else
+            recvLoop fuel (insertAt segs (i + 1) ⟨start, data⟩) (start + data.length) [] (max lg (start + data.length))
+        | none =>
+          recvLoop fuel (insertAt segs (i + 1) ⟨start, data⟩) (start + data.length) [] (max lg (start + data.length))
+
 structure State where
   nread : Nat := 0
   largest : Nat := 0
@@ -56,6 +152,24 @@ def recv (s : State) (off : Nat) (data : Bytes) : State × Nat :=
   let data' := data.drop (min data.length (start - off))
   let (segs', lg') := ins s.segs start data' s.largest
   ({ s with segs := segs', largest := lg' }, lg' - s.largest)
+
+/-- iteration budget that `recv_loop_terminates` proves sufficient -/
+def loopFuel (segs : List Seg) : Nat := 2 * segs.length + 2
+
+/-- `RecvBuf::recv` with the loop transliteration in place of `ins`. -/
+inductive RecvRes where
+  | ok (s : State) (ret : Nat)
+  | panic (site : String)
+  | fuel
+deriving Repr
+
+def recvViaLoop (s : State) (off : Nat) (data : Bytes) : RecvRes :=
+  let start := max off s.nread
+  let data' := data.drop (min data.length (start - off))
+  match recvLoop (loopFuel s.segs) s.segs start data' s.largest with
+  | .done segs' lg' => .ok { s with segs := segs', largest := lg' } (lg' - s.largest)
+  | .panic site => .panic site
+  | .fuel => .fuel
 
 /-- `RecvBuf::available`. -/
 def contEnd : List Seg → Nat → Nat
